@@ -16,6 +16,7 @@ import numpy as np
 
 from sim import core, simfs
 from checks import c18_world as W
+from checks import c18_engine as E
 
 PROP = 'C18'
 N_CONFIGS = {'quick': 176, 'thorough': 4800}
@@ -700,6 +701,10 @@ def _run_config(idx, tier, seed, ctx):
     stats['families'][cfg['family']] += 1
     stats['formats'][cfg['ext']] += 1
     violations = []
+    if cfg['family'] in E.FAMILIES:
+        # resume through the algorithm-level API: its own driver (no Simulation class, no save protocol to sweep)
+        rng = random.Random(core.sub_seed(seed, 'faults'))
+        return _pack(stats, E.run_config(cfg, ctx, stats, W, rng), idx)
     world, out, pre = reference_run(cfg)
     if world is None or out['outcome'] != 'finished':
         # A fault-free run that raises is not a C18 matter (nothing crashed, nothing was resumed): the
@@ -785,6 +790,8 @@ def replay_plan(plan, stats=None):
     np.seterr(all='ignore')
     cfg = plan['cfg']
     stats = stats or new_stats()
+    if cfg['family'] in E.FAMILIES:
+        return E.replay_plan(plan, stats, W)
     world, out, pre = reference_run(cfg)
     if world is None or out['outcome'] != 'finished':
         err = out['error']
